@@ -108,14 +108,11 @@ def verify_one(target):
     return out
 
 
-def discharge_one(item):
-    """worker, phase 2: one obligation"""
-    tier, seed = _G["tier"], _G["seed"]
-    timeout = 10000 if tier == "quick" else 60000
+def cascade(item, seed, timeout):
+    """the discharge cascade for one obligation: weakest problem first (a proof of a weakening is a proof of the obligation)"""
     r = None
     if item.get("ground"):
-        # first attempt on the quantifier-free weakening (fewer assumptions: a proof there is a proof of the obligation);
-        # it keeps the ground obligations away from the quantified background axioms, where z3 tends to wander
+        # quantifier-free assumptions only, no background: keeps ground obligations away from the quantified axioms, where z3 wanders
         rg = discharge_smt2(item["name"], item["kind"], item["line"], item["ground"], timeout_ms=2000, use_cvc5=False, seed=seed, retries=0, inproc=True)
         if rg.status == "proved":
             rg.backend = "z3 (quantifier-free weakening)"
@@ -130,6 +127,14 @@ def discharge_one(item):
         r = discharge_singles(item["name"], item["kind"], item["line"], item["nobg"], seed=seed)
     if r is None:
         r = discharge_smt2(item["name"], item["kind"], item["line"], item["smt2"], timeout_ms=timeout, seed=seed)
+    return r
+
+
+def discharge_one(item):
+    """worker, phase 2: one obligation"""
+    tier, seed = _G["tier"], _G["seed"]
+    timeout = 10000 if tier == "quick" else 60000
+    r = cascade(item, seed, timeout)
     d = r.to_json()
     d["size"] = item["size"]
     if r.status != "proved":
@@ -140,10 +145,12 @@ def discharge_one(item):
                 break
         d["path"], d["note"], d["goal"] = item.get("path"), item.get("note"), item.get("goal")
     elif tier == "thorough":
-        r3 = discharge_smt2(item["name"], item["kind"], item["line"], item["smt2"], timeout_ms=timeout, seed=seed + 7)
+        # stability: the whole cascade once more with another seed must reach the same verdict
+        r3 = cascade(item, seed + 7, timeout)
         d["seed2"] = r3.status
-        st, t2 = run_cvc5_text(item["smt2"], timeout)
-        d["cvc5"] = st
+        if "Val" not in item["smt2"]:
+            st, t2 = run_cvc5_text(item["smt2"], timeout)      # cvc5 cannot parse the nested datatype of values: pure problems only
+            d["cvc5"] = st
     return d
 
 
